@@ -25,7 +25,7 @@ func NewRemoteHTTPIndexStore(location *url.URL, opt StoreOptions) (*RemoteHTTPIn
 // GetIndexReader returns an index reader from an HTTP store. Fails if the specified index
 // file does not exist.
 func (r RemoteHTTPIndex) GetIndexReader(name string) (rdr io.ReadCloser, e error) {
-	b, err := r.GetObject(name)
+	b, err := r.GetObject(indexObjectName(name))
 	if err != nil {
 		return rdr, err
 	}
@@ -55,5 +55,13 @@ func (r *RemoteHTTPIndex) StoreIndex(name string, idx Index) error {
 		return rdr
 	}
 
-	return r.StoreObject(name, getReader)
+	return r.StoreObject(indexObjectName(name), getReader)
+}
+
+// indexObjectName turns the name of an index into the relative URL reference of the
+// object next to the store location. The name is a single path element: it must not be
+// taken apart as a reference itself (a name with ':' would be a scheme, '?' a query,
+// "%2e%2e%2f" a way out of the store location once the server decodes it).
+func indexObjectName(name string) string {
+	return "./" + url.PathEscape(name)
 }
